@@ -73,6 +73,20 @@ var sources = []string{
 	"let hi = +5; let lo = (-(1)); T | where a > lo and a < hi",
 	"let k = 'x'; T | where s == k | extend k2 = k",
 	"T | where k == 1 and a == q",
+	// a failure after lets have been bound, then programs that must not see those lets
+	"let leaked = 1; let other = leaked + 1; T | where not()",
+	"let mine = leaked + 1; T | take mine",
+	"T | where leaked == other",
+	// render with compound property values
+	"T | render barchart with (ymax = 10 * 2, title = strcat(\"a\", \"b\"), ymin = -1, kind = f(x))",
+	// the same text with different leading/trailing white space (positions differ)
+	"T | extend a+1 | summarize count() by k | where (",
+	"\n  T | extend a+1 | summarize count() by k | where (",
+	"T | extend a+1 | summarize count(), sum(a) by k",
+	"\n\n   T | extend a+1 | summarize count(), sum(a) by k",
+	"T | extend a+1 | summarize count(), sum(a) by k  \n",
+	"\t T | where $left.a == 1",
+	"  let q = 2; T | where isnull(a) or x > q | top q by x",
 }
 
 func optionSet() []*pql.CompileOptions {
@@ -229,7 +243,16 @@ func child(args []string) {
 		rep.Panics = append(rep.Panics, panics[g]...)
 	}
 	// sequential history: A, B, A with the same options
-	for _, c := range []callID{{"compile", 1, 3}, {"compile", 9, 3}, {"compile", 0, 3}, {"compile", 1, 3}, {"compile", 9, 0}, {"compile", 1, 3}} {
+	seq := []callID{{"compile", 1, 3}, {"compile", 9, 3}, {"compile", 0, 3}, {"compile", 1, 3}, {"compile", 9, 0}, {"compile", 1, 3}}
+	for i := range sources {
+		// every source again, sequentially, in an order that depends on the seed
+		j := (i*7 + int(seed%int64(len(sources)))) % len(sources)
+		if j < 0 {
+			j += len(sources)
+		}
+		seq = append(seq, callID{"compile", j, int(seed+int64(i)) & 3}, callID{"parse", j, 0})
+	}
+	for _, c := range seq {
 		out := doCall(c, opts)
 		h := hashOf(out)
 		rep.Outputs[h] = out
